@@ -7,7 +7,12 @@ import common as C
 from common import Failure, coq_list
 
 ID = "C04"
-GEN = ["gen_storer_wrappers", "gen_storer"]
+GEN = ["gen_storer_wrappers", "gen_storer", "gen_particle_tables", "gen_pobj", "gen_jetscapeloader", "gen_oscarloader"]
+EXTRA_PROPERTY_FILES = ["C04Bridge", "SrcPObj", "SrcJetscapeLoader", "SrcOscarLoader"]
+SOURCE_TIE_NOTE = ("what a storer holds right after construction: Model/Storer.v hand-over closed form = observables of the loader models Oscar.load / jload / pload "
+    "for every well-formed document, selector in range and filter chain (Properties/C04Bridge.v, 15 theorems; past-the-end selectors give IndexError on both sides), "
+    "and those loader models equal the regenerated OscarLoader.py / JetscapeLoader.py / ParticleObjectLoader.py (SrcOscarLoader, SrcJetscapeLoader, SrcPObj); "
+    "not bridged: a chain that raises on an event of a file loader, selector validation of the file loaders (tied by SrcOscarLoader_load_rejects), files without events")
 MODEL_INDEPENDENT_OF_PROOFS = True      # Model/Storer.v / StorerCheck.v contain no proofs and import nothing generated:
                                         # the correspondence still runs when a translator aborts or a C04_source_* theorem breaks
 ALLOWED_AXIOMS = []
